@@ -328,16 +328,19 @@ _c10 = [
  ("clone", "c10_clone", "clone has the same view and pending; advancing the clone leaves the original unchanged", ["<MoveGen as Clone>::clone (derived)"]),
 ]
 for n, h, c, f in _c10:
-    ob("C10." + n, ["C10", "C07"] if n in ("next", "set_mask", "len") else ["C10"], "chess-movegen", "iter::kani_verif_c10::" + h, kind="complete", flags="full", timeout=2400, mem_gb=8, functions=f, contract=c)
-ob("C10.cover", "C10", "chess-movegen", "iter::kani_verif_c10::c10_cover", kind="cover", flags="full", timeout=2400, mem_gb=8, contract="vacuity guard: 18 entries, mid-promotion cursor, knight promotion yielded, None with entries left")
-ob("C10.negtwin", "C10", "chess-movegen", "iter::kani_verif_c10::c10_negtwin", kind="negtwin", expect="refuted", flags="full", timeout=2400, mem_gb=8, contract="negated twin of len: must be refuted")
+    _pp = ["C10", "C07"] if n in ("next", "set_mask", "len") else ["C10"]
+    ob("C10." + n + ".cap6", _pp, "chess-movegen", "iter::kani_verif_c10::cap6::" + h, kind="bounded", bound="iterator with <= 6 entries (all 64-bit destination sets, masks, indices, cursor states)", flags="full", timeout=1800, mem_gb=5, functions=f, contract=c)
+    ob("C10." + n, _pp, "chess-movegen", "iter::kani_verif_c10::cap18::" + h, kind="complete", tier="thorough", flags="full", timeout=14400, mem_gb=12, functions=f, contract=c + " — up to the real capacity of 18 entries")
+ob("C10.cover", "C10", "chess-movegen", "iter::kani_verif_c10::cap6::c10_cover", kind="cover", flags="full", timeout=2400, mem_gb=8, contract="vacuity guard: 18 entries, mid-promotion cursor, knight promotion yielded, None with entries left")
+ob("C10.negtwin", "C10", "chess-movegen", "iter::kani_verif_c10::cap6::c10_negtwin", kind="negtwin", expect="refuted", flags="full", timeout=2400, mem_gb=8, contract="negated twin of len: must be refuted")
 ob("C10.K1.witness", "C10", "chess-movegen", "iter::kani_verif_c10::c10_k1_witness", kind="witness", expect="refuted", flags="full", timeout=900, mem_gb=4,
    contract="open known finding K1, concrete witness: remove_move(a7a8=Q) must leave a7a8=R pending — must still be refuted")
 ob("C10.K2.witness", "C10", "chess-movegen", "iter::kani_verif_c10::c10_k2_witness", kind="witness", expect="refuted", flags="full", timeout=900, mem_gb=4,
    contract="open known finding K2, concrete witness: set_mask while a promotion destination is partly expanded — must still be refuted")
 PROPERTY_META["C10"] = dict(
-    level="proof",
-    explanation="Contracts on every MoveGen operation over an ARBITRARY iterator value (up to the real capacity of 18 symbolic entries, symbolic mask, index and promotion cursor) under the structural invariant wf that construction and every operation establish (wf preservation is part of each postcondition); membership of a nondeterministic query move gives set-extensional equality of view/pending. Loops bounded by the capacity 18 with unwinding assertions. 'Every move exactly once under successive covering masks' and the engine staging (remove_move; set_mask(captures); drain; set_mask(all); drain) are lemmas over these contracts (not machine-checked). Two genuine defects are recorded as open known findings with narrow carve-outs (K1: remove_move ignores the promotion field; K2: set_mask/remove/remove_move while a promotion destination is partly expanded).",
+    level="model_checking",
+    level_note="quick tier: bounded to iterators of <= 6 entries (every entry/mask/index/cursor value); thorough tier: the real capacity 18 (complete, hours of solver time); covering-mask and staging statements by lemma; two open known findings carved out",
+    explanation="QUICK TIER IS BOUNDED (<= 6 entries); the thorough tier runs the same contracts at the real capacity 18. Contracts on every MoveGen operation over an ARBITRARY iterator value (symbolic entries, symbolic mask, index and promotion cursor) under the structural invariant wf that construction and every operation establish (wf preservation is part of each postcondition); membership of a nondeterministic query move gives set-extensional equality of view/pending. Loops bounded by the capacity 18 with unwinding assertions. 'Every move exactly once under successive covering masks' and the engine staging (remove_move; set_mask(captures); drain; set_mask(all); drain) are lemmas over these contracts (not machine-checked). Two genuine defects are recorded as open known findings with narrow carve-outs (K1: remove_move ignores the promotion field; K2: set_mask/remove/remove_move while a promotion destination is partly expanded).",
     assumptions=["generator establishes wf + 'entries of one source square have disjoint destinations' (C01 obligations)",
                  "covering-masks and engine-staging statements follow from the per-operation contracts by the stated lemma (DESIGN section 5 C10), not machine-checked",
                  "carve-outs of open known findings K1, K2 (known_findings.json)"],
@@ -456,6 +459,9 @@ ob("C01.check_mask", ["C01", "C07"], "chess-movegen", _PC + "c01_check_mask", ki
    functions=["check_mask"], contract="check_mask::<true> == between(king, checker) + checker with exactly one checker (its assert_eq! holds); check_mask::<false> == everything")
 ob("C01.is_legal", ["C01", "C02"], "chess-movegen", "iter::kani_verif_c10::c01_is_legal", kind="bounded", bound="move list of <= 2 entries x <= 3 destinations (the `any` loop)", flags="full", timeout=1500, mem_gb=6,
    stubs=["Board::legals -> small arbitrary MoveGen"], functions=["Board::is_legal"], contract="is_legal(mv) <=> mv is among the moves legals() yields")
+for t, st in (("knight", "nocheck"), ("knight", "check"), ("bishop", "nocheck"), ("rook", "nocheck"), ("queen", "nocheck"), ("queen", "check")):
+    ob("C01.%s.%s.loop2" % (t, st), ["C01"], "chess-movegen", _PC + "c01_%s_%s_loop2" % (t, st), kind="bounded", bound="mover has <= 2 pieces of the type (loop skeleton)", tier="thorough", flags="func", timeout=7200, mem_gb=8, stubs=_LKM,
+       functions=["PieceType::legals (real BitBoardIter loops)"], contract=_INV + ": real iterator, <= 2 %ss: every (src,d) generated exactly once iff legal and masked" % t)
 ob("C01.cover", "C01", "chess-movegen", _PC + "c01_cover", kind="cover", flags="func", timeout=2400, mem_gb=6,
    contract="vacuity guard: under the invariant there are positions with a legal move of a pinned rook, a legal en-passant capture, legal castling, and a pinned knight")
 PROPERTY_META["C01"] = dict(
@@ -482,7 +488,7 @@ ob("C06.total.6", ["C06"], "chess-movegen", _FN + "c06_total_6", kind="bounded",
    contract="parse_fen returns on ALL byte strings of length <= 6")
 ob("C06.total.tail", ["C06", "C07"], "chess-movegen", _FN + "c06_total_tail", kind="bounded", bound="valid placement field + ALL byte strings of length <= 7 for the remaining fields", flags="full", timeout=3000, mem_gb=14, functions=["fen::parse_fen", "Board::validate"],
    contract="after a concrete valid placement: every byte string of length <= 7: no panic; Ok(b) => placement as in the text and b.validate() is Ok")
-ob("C05.parse_tail", ["C05", "C04", "C06"], "chess-movegen", _FN + "c05_parse_tail", kind="bounded", bound="one fixed placement; ALL values of the five trailing fields (2 x 16 x 9 x 10000 x 10000)", flags="full", timeout=3000, mem_gb=14, functions=["fen::parse_fen", "Board::update_pin_info"],
+ob("C05.parse_tail", ["C05", "C06"], "chess-movegen", _FN + "c05_parse_tail", kind="bounded", bound="one fixed placement; ALL values of the five trailing fields (2 x 16 x 9 x 10000 x 10000)", flags="full", timeout=3000, mem_gb=14, functions=["fen::parse_fen", "Board::update_pin_info"],
    contract="parse_fen(placement ++ canonical text of (turn, rights, e.p., half, full)) == Ok(b) with exactly these fields, hash field == from-scratch piece hash, cached sets == spec")
 ob("C05.parse_rank", ["C05", "C06"], "chess-movegen", _FN + "c05_parse_rank", kind="bounded", bound="one symbolic rank (ranks 2..7, 13^8 contents), kings fixed, other ranks empty", flags="full", timeout=3000, mem_gb=14, functions=["fen::parse_fen"],
    contract="parse_fen(canonical text) == Ok(board with exactly this placement), or a validation error when the position is not playable; never a syntax error")
@@ -507,3 +513,8 @@ PROPERTY_META["C05"] = dict(
                  "clock values 0..9999 for the parse direction (the property's own range); writer proved for all 16-bit values"],
     level_note="bounded model checking per family (labelled); field-level inverses complete; whole-string composition by stated argument",
 )
+
+# =========================================================================== Verus spec-level lemmas (DESIGN 2.2)
+ob("LEMMA.verus", ["C14", "C04", "C07"], "__verus__", "verus/lemmas.rs", file="verus/lemmas.rs", kind="complete", timeout=600, mem_gb=1,
+   functions=["(spec only) (rank,key) order; xor fold; move-list counting"], packaging="Verus lemma file (spec functions only, no executable code)",
+   contract="C14: the (rank,key) lexicographic order is a strict total order; C04: xor is commutative/associative/self-inverse, a delta update of a fold equals the fold of the updated key multiset, fold is order-independent; C07: (pawns + 2 e.p. entries) + knights + bishops + rooks + queens + king <= 18 when the side has <= 16 pieces")
